@@ -16,6 +16,7 @@ import (
 	"time"
 
 	"github.com/pdfcpu/pdfcpu/pkg/api"
+	"github.com/pdfcpu/pdfcpu/pkg/pdfcpu"
 	"github.com/pdfcpu/pdfcpu/pkg/pdfcpu/model"
 )
 
@@ -30,13 +31,16 @@ import (
 // has used that much CPU. Normal batches need well under a second.
 
 const (
-	cpuBoundSec  = 20                // CPU seconds one child (batch of <= batchSize files, 2 calls each) may use
+	cpuBoundSec  = 20                // CPU seconds one child (batch of <= batchSize files, 3 calls each) may use
 	memBoundByte = 3 << 29           // heap+stacks the child may obtain from the OS
 	wallWatchdog = 300 * time.Second // generous: firing without the CPU bound being reached is inconclusive
 	batchSize    = 12
 )
 
-var apis = []string{"Bookmarks", "ExportBookmarksFile"}
+// Bookmarks and ExportBookmarksFile validate first (the relaxed validator repairs some cycles);
+// BookmarksForOutlineItem is the exported walker of pkg/pdfcpu/bookmark.go itself, called on the
+// context as read, starting at the outline root's /First.
+var apis = []string{"Bookmarks", "ExportBookmarksFile", "BookmarksForOutlineItem"}
 
 func newConf() *model.Configuration {
 	c := model.NewDefaultConfiguration()
@@ -116,10 +120,30 @@ func childMain() {
 					defer f.Close()
 					_, err = api.Bookmarks(f, newConf())
 					return err
-				default:
+				case "ExportBookmarksFile":
 					js := file + ".json"
 					defer os.Remove(js)
 					return api.ExportBookmarksFile(file, js, newConf())
+				default:
+					f, err := os.Open(file)
+					if err != nil {
+						return err
+					}
+					defer f.Close()
+					ctx, err := api.ReadContext(f, newConf())
+					if err != nil {
+						return err
+					}
+					root, err := ctx.Catalog()
+					if err != nil {
+						return err
+					}
+					ol, err := ctx.DereferenceDict(root["Outlines"])
+					if err != nil || ol == nil {
+						return fmt.Errorf("no outline dictionary: %v", err)
+					}
+					_, err = pdfcpu.BookmarksForOutlineItem(ctx, ol.IndirectRefEntry("First"), nil)
+					return err
 				}
 			})
 			cpu := selfCPU() - c0
